@@ -22,6 +22,7 @@ type webTransport struct {
 
 	session *types.WebTransportConn
 	mu      sync.Mutex
+	reading sync.Once
 }
 
 // WebTransport transport
@@ -53,10 +54,21 @@ func (w *webTransport) Construct(ctx *types.HttpContext) {
 		w.OnClose()
 	})
 
-	go w.message()
-
 	w.SetWritable(true)
 	w.SetPerMessageDeflate(nil)
+}
+
+// On registers listeners. Reading from the connection starts with the first
+// "packet" listener: the owner (a new session, or MaybeUpgrade for an upgrade
+// candidate) attaches its listeners only after the transport exists, and a
+// packet read before that, such as a client's probe sent right after the
+// connection opened, would be emitted to nobody and lost.
+func (w *webTransport) On(evt types.EventName, listeners ...types.Listener) error {
+	err := w.Transport.On(evt, listeners...)
+	if evt == "packet" && len(listeners) > 0 {
+		w.reading.Do(func() { go w.message() })
+	}
+	return err
 }
 
 // Transport name
